@@ -67,6 +67,8 @@ type Profile struct {
 	Avoid map[string]string
 	// Stratified selects each message's codec feature and variant by sequence number instead of drawing it.
 	Stratified bool
+	// DupShortNames lets nested messages of different parents share a short name.
+	DupShortNames bool
 }
 
 // avoidQuiet tests a switch without counting an avoided draw.
@@ -116,6 +118,8 @@ var (
 
 // gen holds generation state for one schema.
 type gen struct {
+	dupShort map[string]bool
+
 	stratum int // schema index, drives stratified feature choice
 	msgSeq  int
 	variant int // stratified variant index of the current message (-1 = draw)
@@ -158,6 +162,10 @@ func Generate(t *rapid.T, p *Profile, id string) *Schema {
 		if r >= '0' && r <= '9' {
 			g.stratum = g.stratum*10 + int(r-'0')
 		}
+	}
+	if strings.HasSuffix(id, "0001") && p.Stratified {
+		// checks that draw one schema per rapid case reuse one id: the stratum is drawn instead
+		g.stratum = g.intn(0, 9999, "stratum")
 	}
 	pkgTail := pick(g, []string{"shop.v1", "api", "core.v2", "svc"}, "pkgtail")
 	goPkg := pick(g, []string{"shoppb", "api", "corev2", "svc"}, "gopkg")
@@ -451,6 +459,18 @@ func (g *gen) newDataMessage(f *File, depth int) string {
 	}
 	if g.p.Nested && g.oneIn(3, "nestedmsg") {
 		nn := g.msgName()
+		dup := g.p.DupShortNames && g.oneIn(2, "dupnested")
+		if dup {
+			// nested types of different parents may share their short name (Order.Item, Shipment.Item)
+			nn = pick(g, []string{"Item", "Meta", "Detail"}, "dupname")
+			if g.dupShort[nn] {
+				g.tagf("dup_short_name")
+			}
+			if g.dupShort == nil {
+				g.dupShort = map[string]bool{}
+			}
+			g.dupShort[nn] = true
+		}
 		nm := &Message{Name: nn}
 		nfq := fq + "." + nn
 		g.msgDefs[nfq] = nm
@@ -458,6 +478,11 @@ func (g *gen) newDataMessage(f *File, depth int) string {
 		nc := &fieldCtx{used: map[string]bool{}, multiOK: true, noMsg: true}
 		for i, n := 0, g.intn(0, 3, "nnf"); i < n; i++ {
 			nm.Fields = append(nm.Fields, g.plainField(nc))
+		}
+		if dup && depth < 1 && g.bool("dupchild") {
+			// a type only this nested message refers to
+			ref := g.newDataMessage(f, depth+2)
+			nm.Fields = append(nm.Fields, &Field{Name: g.fieldName(nc.used, true), Number: g.nextNum(nc), Kind: KMessage, TypeRef: ref, Card: Singular})
 		}
 		g.msgs = append(g.msgs, nfq)
 		g.tagf("nested_type")
